@@ -129,7 +129,7 @@ func (w *World) apply(focus waddrmgr.KeyScope, op Op) *Result {
 	res := &Result{}
 	sm, err := w.Scoped(focus)
 	if err != nil && op.K != "new_scope" && op.K != "restart" && op.K != "lock" && op.K != "unlock" &&
-		op.K != "unlock_wrong" && op.K != "unlock_old" && op.K != "chpass_priv" && op.K != "chpass_pub" && op.K != "to_watching" && op.K != "set_synced" && op.K != "set_synced_gap" {
+		op.K != "unlock_wrong" && op.K != "unlock_old" && op.K != "chpass_priv" && op.K != "chpass_pub" && op.K != "to_watching" && op.K != "set_synced" && op.K != "set_synced_gap" && op.K != "set_synced_jump" {
 		res.Skipped = true
 		return res
 	}
@@ -451,6 +451,17 @@ func (w *World) apply(focus waddrmgr.KeyScope, op Op) *Result {
 		h := int32(op.N)
 		bs := waddrmgr.BlockStamp{Height: w.Synced.Height + 1,
 			Hash:      chainhash.Hash(sha256.Sum256([]byte(fmt.Sprintf("synced-%d-%d", w.Synced.Height+1, h)))),
+			Timestamp: w.Synced.Timestamp.Add(600e9)}
+		res.Expect = "ok"
+		res.Err = tx(func(ns walletdb.ReadWriteBucket) error { return w.Mgr.SetSyncedTo(ns, &bs) })
+		if commit() {
+			w.Synced = bs
+		}
+	case "set_synced_jump":
+		// a tip far above MaxReorgDepth (no birthday block set: no predecessor is asked for), so
+		// that later stamps take the stale-height pruning branch of PutSyncedTo
+		bs := waddrmgr.BlockStamp{Height: w.Synced.Height + waddrmgr.MaxReorgDepth + 7,
+			Hash:      chainhash.Hash(sha256.Sum256([]byte(fmt.Sprintf("synced-jump-%d", w.Synced.Height)))),
 			Timestamp: w.Synced.Timestamp.Add(600e9)}
 		res.Expect = "ok"
 		res.Err = tx(func(ns walletdb.ReadWriteBucket) error { return w.Mgr.SetSyncedTo(ns, &bs) })
